@@ -37,11 +37,21 @@ LET: dict = {
     'X23': {'k': 'index', 'idx': [':', {'arr': [0, 2, 2]}], 's': [2, 3], 'tuple': True},
     'X23e': {'k': 'index', 'idx': ['...', {'arr': [1, 1]}], 's': [2, 3], 'tuple': True},
     'X3id': {'k': 'index', 'idx': [':'], 's': [3], 'tuple': True},
+    # near misses of the index rules: two indexed axes (int + array, strided slice + array), unique data without the flag
+    'X23i': {'k': 'index', 'idx': [0, {'arr': [1, 1, 2]}], 's': [2, 3], 'tuple': True},
+    'X43s': {'k': 'index', 'idx': [{'slice': [None, None, 2]}, {'arr': [0, 2, 2]}], 's': [4, 3], 'tuple': True},
+    'X3nu': {'k': 'index', 'idx': [{'arr': [2, 0]}], 's': [3]},
     'P3': {'k': 'pack', 'mask': [True, False, True], 's': [3]},
     # axes
     'M23': {'k': 'moveaxis', 'src': 0, 'dst': 1, 's': [2, 3]},
     'M32': {'k': 'moveaxis', 'src': 1, 'dst': 0, 's': [3, 2]},
     'M32n': {'k': 'moveaxis', 'src': -1, 'dst': 0, 's': [3, 2]},  # same permutation, other tuple
+    # move-axis pairs on a pytree whose leaves have different ranks: inverse on the first leaf only
+    'Mp01': {'k': 'moveaxis', 'src': 0, 'dst': 1, 's': {'list': [[2, 3], [2, 3, 2]]}},
+    'Mpm10': {'k': 'moveaxis', 'src': -1, 'dst': 0, 's': {'list': [[3, 2], [3, 2, 2]]}},
+    'Mp10': {'k': 'moveaxis', 'src': 1, 'dst': 0, 's': {'list': [[3, 2], [3, 2, 2]]}},
+    'M23b': {'k': 'moveaxis', 'src': [0], 'dst': [-1], 's': [2, 3]},  # same map as M23, other tuple
+    'Sh23b': {'k': 'reshape', 'shape': [3, 2], 's': [2, 3]},  # equal to Sh23 but a distinct object
     'R23': {'k': 'ravel', 's': [2, 3]},
     'R6': {'k': 'ravel', 's': [6]},  # no-op ravel
     'Sh23': {'k': 'reshape', 'shape': [3, 2], 's': [2, 3]},
@@ -69,6 +79,10 @@ LET: dict = {
     'X3nT': {'k': 'expr', 'e': {'T': 'X3n'}},
     'X2aT': {'k': 'expr', 'e': {'T': 'X2a'}},
     'X23T': {'k': 'expr', 'e': {'T': 'X23'}},
+    'X23iT': {'k': 'expr', 'e': {'T': 'X23i'}},
+    'X43sT': {'k': 'expr', 'e': {'T': 'X43s'}},
+    'X3nuT': {'k': 'expr', 'e': {'T': 'X3nu'}},
+    'Sh23bT': {'k': 'expr', 'e': {'T': 'Sh23b'}},
     'X23eT': {'k': 'expr', 'e': {'T': 'X23e'}},
     'P3T': {'k': 'expr', 'e': {'T': 'P3'}},
     'R23T': {'k': 'expr', 'e': {'T': 'R23'}},
@@ -224,4 +238,15 @@ PATTERNS = {
     'moveaxis-pair': ['M32', 'M23'],
     'moveaxis-pair2': ['M23', 'M32'],
     'blockdiag-rot-rotT': ['BDq', 'BDqT'],
+    # near misses: pairs that look like a pattern but must NOT be rewritten (or only partly)
+    'near-indexT-index-int-axis': ['X23iT', 'X23i'],
+    'near-indexT-index-strided': ['X43sT', 'X43s'],
+    'near-index-indexT-unflagged': ['X3nu', 'X3nuT'],
+    'near-indexT-index-unique': ['X3uT', 'X3u'],
+    'near-moveaxis-ranks': ['Mpm10', 'Mp01'],
+    'near-moveaxis-ranks-ok': ['Mp10', 'Mp01'],
+    'near-moveaxis-other-tuple': ['M32', 'M23b'],
+    'near-reshape-distinct-object': ['Sh23', 'Sh23bT'],
+    'near-reshapeT-distinct-object': ['Sh23bT', 'Sh23'],
+    'near-inverse-distinct-object': ['S22I', 'S22b'],
 }
